@@ -6,6 +6,20 @@ import os
 ROOT = os.path.dirname(os.path.dirname(os.path.abspath(__file__)))
 
 CLAIMED = {
+    "C05": dict(
+        category="model_checking",
+        technique="TLA+ model of the cycle search (TLC: safety invariants + termination under fairness, all graphs <= 3/4 "
+                  "nodes) + TLC-enumerated containment / alias / inheritance graphs compiled in isolated workers + TLC "
+                  "trace validation of the recorded diagnostics against the transitive-closure reference",
+        text="Cycles.tla models push_to_stack_and_check action by action and proves it against the transitive closure on "
+             "every graph over 3 (quick) / 4 (thorough) nodes including termination; MC_CyclesGen enumerates every "
+             "containment graph <= 3 nodes x 7 wrapper forms x kinds x compactness (thorough: all 65 536 four-node "
+             "graphs), every alias function <= 4 (5) aliases, every base relation <= 3 (4) interfaces and random 6-10 "
+             "node graphs; each is compiled (crashes and hangs are caught by worker isolation) and Trace_Cycles checks "
+             "error-iff-cycle, every cyclic type named, only cyclic types named, every chain a closed path of fields, "
+             "E019 exactly for looping aliases, inheritance loops rejected.",
+        note="Chains are parsed from the E032 message text. Other errors of acyclic programs are ignored.",
+        design_ref="5 (C05), 4 (Cycles, Inheritance)"),
     "C06": dict(
         category="model_checking",
         technique="TLA+ reference stack machine vs operational lexer/tree/process_nodes semantics (TLC, every file up "
